@@ -134,8 +134,9 @@ def task_lambda_hook(method, stub, names):
             vals.append(P.expr(u) if ft.get('qualType', '').rstrip().endswith('&') else P.expr(e))
         return f'{stub}({selfexpr}, {1 if by_copy else 0}, {", ".join(vals)})'
     return h
-def lambda_call_hook(callee, stub):
+def lambda_call_hook(callee, stub, member=False):
     """callee(a0, .., ak, [captures](..) {..})  ->  <stub>_<j>(a0, .., ak, <captures in capture order>)
+    (member=True: the member call `obj.callee(a0, .., [captures](..) {..})` -> `<stub>_<j>(&obj, a0, .., <captures>)`)
 
     A lambda passed as the LAST argument of the free function `callee` is not translated.  j is the position of that
     lambda among the lambda-taking calls of `callee` printed so far in this function (source order = the `lambda_index`
@@ -147,11 +148,16 @@ def lambda_call_hook(callee, stub):
     from astload import lambda_captures as caps_of
 
     def h(P, n):
-        if n.get('kind') != 'CallExpr' or len(n.get('inner', [])) < 2:
+        if n.get('kind') != ('CXXMemberCallExpr' if member else 'CallExpr') or len(n.get('inner', [])) < 2:
             return None
-        rd = unwrap(n['inner'][0]).get('referencedDecl') or {}
-        if rd.get('name') != callee:
-            return None
+        if member:
+            me = n['inner'][0]
+            if me.get('kind') != 'MemberExpr' or me.get('name') != callee or not me.get('inner'):
+                return None
+        else:
+            rd = unwrap(n['inner'][0]).get('referencedDecl') or {}
+            if rd.get('name') != callee:
+                return None
         lam = lambda_arg(n['inner'][-1])
         if lam is None:
             return None
@@ -160,6 +166,9 @@ def lambda_call_hook(callee, stub):
             seen.append(lam.get('id'))
         j = seen.index(lam.get('id'))
         args = [P.arg(a) for a in n['inner'][1:-1]]
+        if member:
+            obj = n['inner'][0]['inner'][0]
+            args.insert(0, P.expr(obj) if n['inner'][0].get('isArrow') else P.addr(obj))
         for c in caps_of(lam):
             if c['this']:
                 args.append('self')
@@ -175,7 +184,7 @@ def lambda_call_hook(callee, stub):
     return h
 
 
-def lambda_stub_hook(callee, stub, lambda_cnames, body):
+def lambda_stub_hook(callee, stub, lambda_cnames, body, member=False):
     """callee(a0, .., ak, [captures](..) {..})  ->  <stub>_<j>(a0, .., ak, [self,] <captures in capture order>), AND the C text of that
     stub is GENERATED (into the unit's prototypes) from the lambda as it is in the source now, so that a change of the capture
     list changes stub, call and the extracted body together (nothing is pinned by a hand-written prototype):
@@ -186,16 +195,22 @@ def lambda_stub_hook(callee, stub, lambda_cnames, body):
     `body` is the spec's C statement for the callee's contract (e.g. "the callback runs once, at the ghost position, iff the
     value is given"); in it nv_a0..nv_ak are the callee's other arguments (default passing: glvalues by address) and
     `@CALL(x, y)` is the call of the lambda body with operator() arguments x, y.  `self` is passed whenever the enclosing
-    function has a self struct (the lambda Fn must be declared with the same self_struct), whether or not `this` is captured."""
+    function has a self struct (the lambda Fn must be declared with the same self_struct), whether or not `this` is captured.
+    member=True: the member call `obj.callee(a0, .., lambda)`; the stub's first parameter is then `<C type of obj>* nv_obj`."""
     from astload import lambda_captures as caps_of, lambda_call_operator
     from cxx2c import return_type_of
 
     def h(P, n):
-        if n.get('kind') != 'CallExpr' or len(n.get('inner', [])) < 2:
+        if n.get('kind') != ('CXXMemberCallExpr' if member else 'CallExpr') or len(n.get('inner', [])) < 2:
             return None
-        rd = unwrap(n['inner'][0]).get('referencedDecl') or {}
-        if rd.get('name') != callee:
-            return None
+        if member:
+            me = n['inner'][0]
+            if me.get('kind') != 'MemberExpr' or me.get('name') != callee or not me.get('inner'):
+                return None
+        else:
+            rd = unwrap(n['inner'][0]).get('referencedDecl') or {}
+            if rd.get('name') != callee:
+                return None
         lam = lambda_arg(n['inner'][-1])
         if lam is None:
             return None
@@ -209,6 +224,13 @@ def lambda_stub_hook(callee, stub, lambda_cnames, body):
         if op is None:
             raise Unsupported(f'{callee}: lambda without a call operator')
         lead_params, lead_args = [], []
+        if member:      # the object of the member call comes first: `<its C type>* nv_obj`
+            obj = n['inner'][0]['inner'][0]
+            ot = dict(obj['type'])
+            if n['inner'][0].get('isArrow'):
+                ot = {k: re.sub(r'\s*\*\s*(const)?\s*$', '', v) for k, v in ot.items() if isinstance(v, str)}
+            lead_params.append(f'{P.ctype(ot)}* nv_obj')
+            lead_args.append(P.expr(obj) if n['inner'][0].get('isArrow') else P.addr(obj))
         for k, a in enumerate(n['inner'][1:-1]):
             u = a           # the same decision as Printer.arg: glvalues (bound to references) by address, prvalues by value
             while u.get('kind') in TRANSPARENT and u.get('kind') != 'MaterializeTemporaryExpr':
